@@ -113,7 +113,13 @@ def program(draw, weights=None, min_steps=8, max_steps=30, prefixes=PREFIXES, se
 
     def maybe_cond():
         if cond_rate and draw(st.integers(0, cond_rate)) == 0:
-            return [draw(cond_spec())]
+            c = draw(cond_spec())
+            if draw(st.integers(0, 3)) == 0:
+                # both headers on one request (the conjunction decides)
+                c2 = draw(cond_spec())
+                c2["hdr"] = "If-None-Match" if c["hdr"] == "If-Match" else "If-Match"
+                return [c, c2]
+            return [c]
         return []
 
     for _ in range(n):
